@@ -1,4 +1,4 @@
 SPECIFICATION Spec
-CONSTANTS Decimals = 5  NoClose = FALSE  AlwaysTxt = FALSE
+CONSTANTS Decimals = 5  NoClose = FALSE  AlwaysTxt = FALSE  RawHeader = FALSE
 CHECK_DEADLOCK FALSE
 INVARIANT ParsedIsRound6
